@@ -36,7 +36,10 @@ impl Setting {
     /// a fresh engine brought into this state
     fn engine(&self) -> Result<Flounder, String> {
         let mut eng = Flounder::new();
-        engine_call(|| eng.verif_handle_command(&self.position_cmd))?;
+        // several commands may be given, separated by " ; " (e.g. a game, ucinewgame, another game)
+        for c in self.position_cmd.split(" ; ") {
+            engine_call(|| eng.verif_handle_command(c))?;
+        }
         eng.verif.budget_only = false;
         for i in 0..self.earlier_searches {
             // real, timed searches that end at once (depth 1): whatever the engine learns from
@@ -127,9 +130,9 @@ fn perms() -> Vec<[usize; 4]> {
 pub fn run(ctx: &Ctx) -> i32 {
     let spec = Spec {
         level: "exploration",
-        rule: "cases are go commands made of the four pairs wtime/btime/winc/binc in one of the 24 token orders (optionally followed by 'movestogo N'), with either side to move; the mover's (time, increment) range over hostile values (0, 1, around the 5 s reserve, hours) and for each the opponent's values and the order vary; the budget recorded by the hook must be identical across opponent values and orders, <= the mover's remaining time, and < it whenever any time remains. The grid is run on fresh engines at the start position (either side to move) and, reduced, on other engine states: positions with few and with many legal moves (up to 218) and engine instances that have already run 1..40 real timed searches. Distinct by (engine state, command text); all non-trivial. End-to-end part: the real release binary is given extreme clocks (0..900 ms left, increments up to 10 s) in middlegames and the CPU time it consumes before answering must stay within the remaining time + 500 ms",
+        rule: "cases are go commands made of the four pairs wtime/btime/winc/binc in one of the 24 token orders (optionally followed by 'movestogo N'), with either side to move; the mover's (time, increment) range over hostile values (0, 1, around the 5 s reserve, hours) and for each the opponent's values and the order vary; the budget recorded by the hook must be identical across opponent values and orders, <= the mover's remaining time, and < it whenever any time remains. The grid is run on fresh engines at the start position (either side to move) and, reduced, on other engine states: positions with few and with many legal moves (up to 218) engine instances that have already run 1..40 real timed searches, and engines that reached their position through an earlier game followed by ucinewgame or by a second position command (the mover is the side to move in the position the engine holds now). Distinct by (engine state, command text); all non-trivial. End-to-end part: the real release binary is given extreme clocks (0..900 ms left, increments up to 10 s) in middlegames and the CPU time it consumes before answering must stay within the remaining time + 500 ms",
         assumptions: vec!["the budget observed is the Duration handed to find_best_move (hook in handle_go_command); that the search honours it is property C07".into()],
-        required: if ctx.replay.is_some() { vec![] } else { vec!["invariance_comparisons", "clock_zero", "clock_at_or_below_reserve", "clock_above_reserve", "increment_exceeds_remaining", "blackbox_go_with_extreme_clocks", "engine_states_other_than_a_fresh_start_position", "engine_states_after_12_or_more_timed_searches", "engine_states_with_more_than_30_legal_moves", "blackbox_go_with_seconds_on_the_clock_and_a_huge_increment"] },
+        required: if ctx.replay.is_some() { vec![] } else { vec!["invariance_comparisons", "clock_zero", "clock_at_or_below_reserve", "clock_above_reserve", "increment_exceeds_remaining", "blackbox_go_with_extreme_clocks", "engine_states_other_than_a_fresh_start_position", "engine_states_after_12_or_more_timed_searches", "engine_states_with_more_than_30_legal_moves", "engine_states_reached_through_an_earlier_game_and_ucinewgame_or_a_second_position_command", "blackbox_go_with_seconds_on_the_clock_and_a_huge_increment"] },
         exhaustive: false,
         extra: vec![],
     };
@@ -220,6 +223,37 @@ pub fn run(ctx: &Ctx) -> i32 {
         for k in 0..n_settings {
             if k >= 2 && ctx.past(0.5) {
                 break;
+            }
+            // command HISTORIES before the go: the side to move is that of the position the engine holds NOW —
+            // after ucinewgame the start position (White), after a later position command that one's —
+            // whatever side was to move in an earlier game of the same process
+            if k % 6 == 3 || k % 6 == 4 {
+                let plies = 1 + 2 * rng.below(6) as usize;
+                let (ps, ms) = crate::gen::playout(&crate::oracle::Pos::start(), &mut rng, plies);
+                let g1: Vec<String> = ms.iter().map(|m| m.uci()).collect();
+                let first = format!("position startpos moves {}", g1.join(" "));
+                let _ = ps;
+                let (seq, black) = match rng.below(4) {
+                    0 => (format!("{} ; ucinewgame", first), false),
+                    1 => (format!("{} ; ucinewgame ; position startpos moves e2e4 e7e5", first), false),
+                    2 => (format!("{} ; position startpos", first), false),
+                    _ => (format!("position startpos moves d2d4 d7d5 ; ucinewgame ; position startpos moves e2e4"), true),
+                };
+                let setting = Setting { position_cmd: seq, earlier_searches: *rng.pick(&[0u64, 0, 1, 2]) };
+                if let Ok(mut eng) = setting.engine() {
+                    st.bump("engine_states_other_than_a_fresh_start_position");
+                    st.bump("engine_states_reached_through_an_earlier_game_and_ucinewgame_or_a_second_position_command");
+                    let mut seen = HashMap::new();
+                    for &t in TIMES.iter() {
+                        for &inc in [0u64, 100, 5000].iter() {
+                            one_case(&mut eng, &setting, black, (t, inc), (t, inc), &[0, 1, 2, 3], "", &mut st, &mut seen);
+                            let opp = (*rng.pick(&TIMES), *rng.pick(&INCS));
+                            let order = *rng.pick(&all_perms);
+                            one_case(&mut eng, &setting, black, (t, inc), opp, &order, "", &mut st, &mut seen);
+                        }
+                    }
+                }
+                continue;
             }
             let p = match k % 6 {
                 0 => crate::oracle::Pos::from_fen("r3k2r/p1ppqpb1/bn2pnp1/3PN3/1p2P3/2N2Q1p/PPPBBPPP/R3K2R w KQkq - 0 1").unwrap(),
